@@ -238,6 +238,11 @@ func (k *Kernel) sleepUntil(at time.Time) {
 	if d > 0 {
 		time.Sleep(d) // bubble clock: returns at once, fake time advanced by d
 		k.version++
+		// The per-operation yield budget detects spinning without progress of
+		// time; polling on a ticker while the clock advances is not a spin.
+		for _, t := range k.tasks {
+			t.YieldsOp = 0
+		}
 	}
 }
 
